@@ -376,7 +376,7 @@ def real_arrays(case, c):
     tlib = get_tlib(case['tlib'])
     with quiet():
         try:
-            df = sdf.parse(case['sdf'])
+            df = common.after_failed_parse(sdf.parse, case['sdf'])
         except Exception as ex:
             return f'raise:{type(ex).__name__}', f'raise:{type(ex).__name__}'
         try:
